@@ -6,8 +6,10 @@ import (
 	"encoding/json"
 	"fmt"
 	"os"
+	"runtime/pprof"
 	"sort"
 	"syscall"
+	"time"
 )
 
 // raiseFdLimit: an in-process tile38 server never closes its append-only file and its hook queue when it shuts down
@@ -46,8 +48,30 @@ func emit(v interface{}) {
 	enc.Encode(v)
 }
 
+// heapProfiles: VERIF_HEAPPROF=<path> makes a driver write a heap profile every 20 s (diagnosis of the drivers themselves)
+func heapProfiles() {
+	path := os.Getenv("VERIF_HEAPPROF")
+	if path == "" {
+		return
+	}
+	go func() {
+		for {
+			time.Sleep(20 * time.Second)
+			if f, err := os.Create(path); err == nil {
+				pprof.WriteHeapProfile(f)
+				f.Close()
+			}
+			if f, err := os.Create(path + ".goroutines"); err == nil {
+				pprof.Lookup("goroutine").WriteTo(f, 1)
+				f.Close()
+			}
+		}
+	}()
+}
+
 func main() {
 	raiseFdLimit()
+	heapProfiles()
 	if len(os.Args) < 2 || subcmds[os.Args[1]] == nil {
 		var names []string
 		for n := range subcmds {
